@@ -48,6 +48,22 @@ def generate(repo):
           raise ConfigParserException("Pair potential keys should be of the form 'SPECIES_A-SPECIES_B'. Species missing in key: '{}'".format(k))
         return  SpeciesTuple(species_a, species_b)
     """)
+    # signatures (model/ItemLabel.v: sig_key)
+    src = open(os.path.join(repo, CP), encoding='utf-8').read()
+    if '_signature_re = re.compile(r"^([a-zA-Z]\\w*?)\\((.*)\\)$")' not in src: raise Refuse('ConfigParser._signature_re is not the modelled pattern')
+    assert_body(repo, CP, 'ConfigParser._parse_potential_form_signature', """
+        pf = pf.strip()
+        m = self._signature_re.match(pf)
+        if not m:
+          raise ConfigParserException("Invalid function signature found in [Potential-Form]: '{0}'".format(pf))
+        label, params = m.groups()
+        label = label.strip()
+        params = [p.strip() for p in params.split(',')]
+        for param in params:
+          if not re.match(r"^[a-zA-Z]\\w*$", param):
+            raise ConfigParserException("Invalid parameter name '{0}' in function signature found in [Potential-Form]: '{1}'".format(param, pf))
+        return PotentialFormSignatureTuple(label, params, False)
+    """)
     assert_body(repo, CP, 'ConfigParser._parse_eam_fs_density_line.species_func', """
         tokens = k.split("->")
         if len(tokens) != 2:
